@@ -70,6 +70,7 @@ type c11hScenario struct {
 	// Pause[i]: after the read that brought request i to this stage ("head-partial", "headers", "body-half") its
 	// client stops sending and goes on only when the signal has arrived and MOSN has done whatever it does at once
 	// (nothing can run any more except timers): a slow upload that is under way while MOSN starts draining.
+	// "before": the client sends request i only then (a new stream / a keep-alive request that reaches MOSN after the signal).
 	Pause    []string `json:"pause,omitempty"`
 	SigFirst bool     `json:"sig_first,omitempty"` // the signal thread is created before the client threads
 	// The signal cannot arrive before this has happened ("" = it can arrive from the start); deviations
@@ -94,7 +95,9 @@ func c11hName(sc *c11hScenario) string {
 		if c := c11hAt(sc.Cut, i); c != "" {
 			s += fmt.Sprintf(" request-%d-%s", i, c)
 		}
-		if p := c11hAt(sc.Pause, i); p != "" {
+		if p := c11hAt(sc.Pause, i); p == "before" {
+			s += fmt.Sprintf(" request-%d-sent-only-when-draining", i)
+		} else if p != "" {
 			s += fmt.Sprintf(" client-%d-pauses-at-%s-until-draining", i, p)
 		}
 	}
@@ -143,7 +146,9 @@ type c11hObs struct {
 func (o *c11hObs) headBeforeSig(i int) bool { return o.NParts[i] > 0 && o.StartedSig[i] > o.HeadIdx[i] }
 
 // headDoneBeforeSig: ... and MOSN had finished processing that read (HTTP/2: the stream was accepted).
-func (o *c11hObs) headDoneBeforeSig(i int) bool { return o.NParts[i] > 0 && o.DoneSig[i] > o.HeadIdx[i] }
+func (o *c11hObs) headDoneBeforeSig(i int) bool {
+	return o.NParts[i] > 0 && o.DoneSig[i] > o.HeadIdx[i]
+}
 
 func (o *c11hObs) allBeforeSig(i int) bool { return o.NParts[i] > 0 && o.StartedSig[i] == o.NParts[i] }
 func (o *c11hObs) sentAll(i int) bool      { return o.NParts[i] > 0 && o.Started[i] == o.NParts[i] }
@@ -413,6 +418,13 @@ func (x *c11hRun) startClient(ci int) {
 			if d.Conn.IsClosed() {
 				break
 			}
+			if c11hAt(sc.Pause, i) == "before" {
+				vrt.WaitUntil("client: request held back until the signal has arrived", func() bool { return obs.SigSeen })
+				vrt.QuiesceNoTimers()
+				if d.Conn.IsClosed() {
+					break
+				}
+			}
 			parts, head, stages := c11hParts(sc, h.wire, d, k, &sc.Requests[i], c11hAt(sc.Cut, i))
 			obs.NParts[i], obs.HeadIdx[i], obs.Stages[i] = len(parts), head, stages
 			d.Sent = append(d.Sent, i)
@@ -637,14 +649,17 @@ func c11hCheck(sc *c11hScenario, obs *c11hObs, r *vrt.Result, timeConsistent fun
 					}
 					continue
 				}
-				if f.Status == hhOKStatus(i) && (f.rtoken() != rq.Token || (f.Body != "" && f.Body != "resp-of-"+rq.Token)) {
+				// success = the scripted upstream response of this very exchange (status, token header, body)
+				success := f.Status == hhOKStatus(i) && f.rtoken() == rq.Token && (f.Body == "" || f.Body == "resp-of-"+rq.Token)
+				if f.rtoken() != "" && !success && f.Status == hhOKStatus(i) {
 					report(fmt.Sprintf("success response carries another exchange's header or body (%s) deviations=%d", proto, r.Cost), fmt.Sprintf("request %s: %s", rq.Token, f.String()))
 				}
-				// a timeout reply written at a virtual time at which the route timer was due is explained by
-				// the timer (the scheduler let that much time pass)
-				timerDue := (f.Status == 504 || f.Status == 502 || f.Status == 500) && f.AtMs >= int64(sc.RouteTimeoutMs)
-				if inflight && f.Status != hhOKStatus(i) && allOK && noTimer && !timerDue {
-					report(fmt.Sprintf("request in flight at the signal answered with an error although its upstream answers OK: %s status=%d phase-at-signal=%s deviations=%d%s", proto, f.Status, obs.PhaseSig[i], r.Cost, closedBy),
+				// a reply MOSN generated itself (no rtoken) at a virtual time at which the route timer was due is
+				// explained by the timer (the scheduler let that much time pass); which status and headers such a
+				// reply carries when it races the upstream's response is C02/C03's subject
+				timerDue := f.rtoken() == "" && f.AtMs >= int64(sc.RouteTimeoutMs)
+				if inflight && !success && allOK && noTimer && !timerDue {
+					report(fmt.Sprintf("request in flight at the signal answered with an error although its upstream answers OK: %s status=%d phase-at-signal=%s deviations=%d%s", proto, c03hStatusClass(f.Status, &sc.hhScenario), obs.PhaseSig[i], r.Cost, closedBy),
 						fmt.Sprintf("request %s: %s; log=%v", rq.Token, f.String(), obs.hh.Log))
 				}
 				continue
@@ -794,7 +809,8 @@ func c11hScenarios(proto string) []c11hScenario {
 		add(c11hScenario{hhScenario: hhScenario{Requests: rs(post("t1", hhOK))}, Cut: []string{"split"}, Pause: []string{"headers"}, SigFirst: true}, "head-partial")
 		if h2 {
 			// a new stream WITH a body opened after the signal next to a stream in flight
-			add(c11hScenario{hhScenario: hhScenario{ReplyDelayMs: 55, Concurrent: true, Requests: rs(get("t1", hhDelayOK), post("t2", hhOK))}, Cut: []string{"", "split"}}, "upstream-sent", "quiesce")
+			add(c11hScenario{hhScenario: hhScenario{ReplyDelayMs: 55, Concurrent: true, Requests: rs(get("t1", hhDelayOK), post("t2", hhOK))}, Cut: []string{"", "split"}, Pause: []string{"", "before"}}, "upstream-sent", "quiesce")
+			add(c11hScenario{hhScenario: hhScenario{ReplyDelayMs: 55, Concurrent: true, Requests: rs(get("t1", hhDelayOK), get("t2", hhOK))}, Pause: []string{"", "before"}}, "upstream-sent")
 		}
 	}
 	return out
